@@ -55,6 +55,7 @@ fn main() {
         "C04" => props::c04::run(rest),
         "C05" => props::c05::run(rest),
         "C09" => props::c09::run(rest),
+        "C11" => props::c11::run(rest),
         "C13" => props::c13::run(rest),
         "C16" => props::c16::run(rest),
         "C18" => props::c18::run(rest),
